@@ -28,6 +28,7 @@ type Case struct {
 	Mode   string // online | offline | slow
 	WaitMs int    // intended waiting time
 	QoS    byte
+	IE     bool `json:",omitempty"` // mqtt.inflight_expiry left at its default (30 s) instead of 0
 }
 
 const margin = 400 * time.Millisecond
@@ -60,6 +61,9 @@ func runCase(c Case, idx int) (fs []finding, incon string, obs map[string]int, r
 	b, err := broker.Start(broker.Options{Cfg: func(cf *config.Config) {
 		cf.MQTT.MessageExpiry = time.Duration(c.C) * time.Second
 		cf.MQTT.InflightExpiry = 0
+		if c.IE {
+			cf.MQTT.InflightExpiry = 30 * time.Second
+		}
 	}})
 	if err != nil {
 		return nil, "", nil, err
@@ -334,7 +338,7 @@ func allCases(rng *rand.Rand, quick bool) []Case {
 							if mode == "online" || mode == "idle" || mode == "offline" {
 								q = byte(rng.Intn(3)) // QoS 0 messages are queued for an offline session as well (queue_qos0_messages)
 							}
-							cs = append(cs, Case{Pub: pub, E: e, C: cc, SubV: sv, Mode: mode, WaitMs: w, QoS: q})
+							cs = append(cs, Case{Pub: pub, E: e, C: cc, SubV: sv, Mode: mode, WaitMs: w, QoS: q, IE: len(cs)%2 == 1})
 						}
 					}
 				}
@@ -346,7 +350,7 @@ func allCases(rng *rand.Rand, quick bool) []Case {
 		seen := map[string]bool{}
 		var keep, rest []Case
 		for _, c := range cs {
-			k := fmt.Sprintf("%s|%s|%d|%v|%v|%v|%v", c.Pub, c.Mode, c.SubV, c.C == 0, time.Duration(c.WaitMs)*time.Millisecond > c.lifetime(), c.WaitMs > 4300 && c.E >= 10, c.QoS == 0 && c.Mode == "offline" && c.E >= 3)
+			k := fmt.Sprintf("%s|%s|%d|%v|%v|%v|%v", c.Pub, c.Mode, c.SubV, c.C == 0, time.Duration(c.WaitMs)*time.Millisecond > c.lifetime(), c.WaitMs > 4300 && c.E >= 10, c.QoS == 0 && c.Mode == "offline" && c.E >= 3) + fmt.Sprint(c.IE && c.Mode != "online")
 			if !seen[k] {
 				seen[k] = true
 				keep = append(keep, c)
@@ -354,8 +358,8 @@ func allCases(rng *rand.Rand, quick bool) []Case {
 				rest = append(rest, c)
 			}
 		}
-		if len(keep) > 96 {
-			keep = keep[:96]
+		if len(keep) > 140 {
+			keep = keep[:140]
 		}
 		return keep
 	}
